@@ -400,10 +400,20 @@ def list_part_names(chk, F):
     if site is None:
         raise AnchorLost("to_list: the closure that renders the parts was not found")
     fn, bb, gated = site
+    # the worse half of the defect has a repair the pinned suite allows: a glued name that *reads* as a unit must be that prefix
+    # times the list unit, otherwise the part is shown without a prefix (to_parts_simple).  Structure: the closure looks the
+    # prettified name up, compares value and dimensionality with the list unit's, and has a to_parts_simple fall-back.
+    names = [t["callee"]["path"] for _, t in fn.calls() if "callee" in t]
+    lookups = sum(1 for n in names if n.endswith("Context::lookup"))
+    has_fallback = any(n.endswith("Number::to_parts_simple") for n in names)
+    has_cmp = any(n.endswith(("PartialEq>::ne", "PartialEq>::eq", "PartialEq::ne", "PartialEq::eq")) for n in names)
+    chk.decide(gated or (lookups >= 2 and has_fallback and has_cmp), "list-part-names", "rink_core::" + k1norm(fn.path), "glued-name-that-reads-denotes-the-part", fn.where(bb),
+               "a prefixed part name that reads as a unit is compared with prefix x list unit and dropped for the plain rendering when it differs",
+               "a prefixed part name is printed without asking what it reads as: `2 hours -> ms;us` prints `7.2 megameter`, `500 km -> hm;m` prints `5 kiloohm`")
     chk.decide(gated, "list-part-names", "rink_core::" + k1norm(fn.path), "prefix-only-on-base-units", fn.where(bb),
                "list parts are prettified (SI prefix glued onto the list unit's name) only when that name is a base unit",
                "every list part is prettified as if the list unit's name were a base unit: an SI prefix is glued onto arbitrary names "
-               "(`500 km -> hm;m` prints `5 kiloohm`, `12345 km -> km;m` prints `12.345 kilokm`)")
+               "(`12345 km -> km;m` prints `12.345 kilokm`, `3 km -> mm;um` prints `3 megamm`: names that do not read back)")
 
 
 def k1gen(fn):
